@@ -1,6 +1,195 @@
-(** * C13 — placeholder while the correspondence is brought up *)
-From Coq Require Import List.
-From ApiFu Require Import Base.Sexp Feat.FeaturesModel Feat.FeaturesSpec.
-Theorem C13_placeholder : forall F, subset nil F = true.
-Proof. exact (fun F => eq_refl). Qed.
-Print Assumptions C13_placeholder.
+(** * C13 — a disabled feature is indistinguishable from its elements not existing.
+
+    Only statements, each closed by [exact]; [Print Assumptions] at the end.
+
+    Vocabulary (Feat/FeaturesModel.v, Feat/FeaturesSpec.v):
+      [schema_ok S]      the acceptance checks of schema.New (with the repairs of this property);
+      [ask fixed S F q]  the answer of the code to lookup [q] in schema [S] for a request with
+                         feature set [F] — [q] ranges over every place validator, executor and
+                         introspection look something up in a schema (the three views);
+      [erase S F]        S with every type, field, implementation link, membership and root type
+                         whose requirements are not within F physically deleted;
+      [visible S F h]    type h is registered and its requirements are within F;
+      [handle_args q]    the type pointers lookup q is applied to; [handles_of q a] the type
+                         pointers answer a hands to the consumer;
+      [prog A], [run]    a consumer: any program that sees the schema only through [ask] and applies
+                         pointer-taking lookups only to pointers it was handed ([Forged] otherwise);
+                         [run] returns the trace of lookups and the result.
+
+    Full statement of the property (properties.jsonl):
+      forall schema S, feature set F, query q (incl. introspection probing by name):
+        response(S, F, q) == response(erase(S, F), all-features, q)
+        and the call log of gated resolvers is empty.
+    What is proved of it, for all S, F, G ⊇ F without any bound:
+      - [C13_view_erase_eq], [C13_view_closed]: every single lookup of the three views answers the
+        same, and hands out only visible types (stage 1: field / type lookup, introspection listings
+        incl. by-name lookup, interfaces, possibleTypes; stage 2: abstract-type resolution, spread
+        possibility, fragment applicability);
+      - [C13_noninterference]: hence EVERY consumer program computes the same result with the same
+        trace — validation, execution and introspection are such programs as far as they use the
+        schema only through these lookups (which is what the differential correspondence check
+        tests on the real code);
+      - [C13_gated_never_called]: every field definition GetField hands out exists unchanged in
+        the reduced schema, so a resolver of a deleted element is never invoked;
+      - [C13_feature_validate_eq_partial], [C13_feature_exec_eq_partial]: the instances for the
+        transcribed validator and executor — *partial*: transcribed for chain documents (one
+        selection per selection set) only; the complete validator / executor models belong to
+        C04 / C01 and would be instantiated through [C13_noninterference];
+      - [C13_erase_schema_ok]: the reduced schema is itself one that schema.New accepts;
+      - [C13_enabling_shows_everything]: with every feature enabled nothing is deleted. *)
+From Coq Require Import String List.
+From ApiFu Require Import Base.Sexp Feat.FeaturesModel Feat.FeaturesSpec Feat.FeaturesProofs.
+Import ListNotations.
+Open Scope string_scope.
+Open Scope list_scope.
+
+(** every lookup, applied to pointers the request may hold, answers the same on (S, F) and on the
+    physically reduced schema with any feature set G ⊇ F (in particular all features) *)
+Theorem C13_view_erase_eq : forall S F G q,
+  schema_ok S = true -> subset F G = true ->
+  (forall h, In h (handle_args q) -> visible S F h = true) ->
+  ask fixed S F q = ask fixed (erase S F) G q.
+Proof. exact view_erase_eq. Qed.
+
+(** ... and hands out only types the request may see (so the premise above is an invariant) *)
+Theorem C13_view_closed : forall S F q,
+  schema_ok S = true ->
+  (forall h, In h (handle_args q) -> visible S F h = true) ->
+  forall h, In h (handles_of q (ask fixed S F q)) -> visible S F h = true.
+Proof. exact view_closed. Qed.
+
+(** the three views separately (the statement above restricted to the lookups each consumer uses) *)
+Theorem C13_view_validator_erase_eq : forall S F G q, in_view_validator q = true ->
+  schema_ok S = true -> subset F G = true ->
+  (forall h, In h (handle_args q) -> visible S F h = true) ->
+  ask fixed S F q = ask fixed (erase S F) G q.
+Proof. exact (fun S F G q _ => view_erase_eq S F G q). Qed.
+
+Theorem C13_view_executor_erase_eq : forall S F G q, in_view_executor q = true ->
+  schema_ok S = true -> subset F G = true ->
+  (forall h, In h (handle_args q) -> visible S F h = true) ->
+  ask fixed S F q = ask fixed (erase S F) G q.
+Proof. exact (fun S F G q _ => view_erase_eq S F G q). Qed.
+
+(** feature_introspect_eq: types list, __type(name:), kind, fields, interfaces, possibleTypes,
+    enumValues, inputFields, root types, directives *)
+Theorem C13_feature_introspect_eq : forall S F G q, in_view_introspection q = true ->
+  schema_ok S = true -> subset F G = true ->
+  (forall h, In h (handle_args q) -> visible S F h = true) ->
+  ask fixed S F q = ask fixed (erase S F) G q.
+Proof. exact (fun S F G q _ => view_erase_eq S F G q). Qed.
+
+(** every consumer program: same result, same trace of lookups *)
+Theorem C13_noninterference : forall (A : Type) (p : prog A) S F G,
+  schema_ok S = true -> subset F G = true ->
+  run fixed S F [] p = run fixed (erase S F) G [] p.
+Proof. exact @noninterference. Qed.
+
+Theorem C13_noninterference_all_features : forall (A : Type) (p : prog A) S F,
+  schema_ok S = true ->
+  run fixed S F [] p = run fixed (erase S F) (F ++ all_features S) [] p.
+Proof. exact @noninterference_all_features. Qed.
+
+(** a resolver of a gated field / of a field of a gated type is never invoked: the field
+    definitions GetField hands out during any run all exist, unchanged, in the reduced schema *)
+Theorem C13_gated_never_called : forall (A : Type) (p : prog A) S F t f fd,
+  schema_ok S = true ->
+  In (t, f, fd) (resolved_fields (fst (run fixed S F [] p))) ->
+  exists x, lookup (erase S F) t = Some x /\ assoc f (fields_of x) = Some fd.
+Proof. exact @gated_never_called. Qed.
+
+(** feature_validate_eq / feature_exec_eq for the transcribed validator and executor — partial:
+    chain documents.  Full statement: for every document d,
+      ParseAndValidate(d, S, F) = ParseAndValidate(d, erase S F, all)  and
+      Execute(d, S, F) = Execute(d, erase S F, all);
+    missing: the transcription of validator and executor for arbitrary documents (C04 / C01),
+    to which [C13_noninterference] then applies verbatim. *)
+Theorem C13_feature_validate_eq_partial : forall S F G c,
+  schema_ok S = true -> subset F G = true ->
+  run fixed S F [] (chain_validate c) = run fixed (erase S F) G [] (chain_validate c).
+Proof. exact (fun S F G c => noninterference (chain_validate c) S F G). Qed.
+
+Theorem C13_feature_exec_eq_partial : forall S F G c,
+  schema_ok S = true -> subset F G = true ->
+  run fixed S F [] (chain_prog c) = run fixed (erase S F) G [] (chain_prog c).
+Proof. exact (fun S F G c => noninterference (chain_prog c) S F G). Qed.
+
+(** the reference exists: the reduced schema is accepted by schema.New *)
+Theorem C13_erase_schema_ok : forall S F, schema_ok S = true -> schema_ok (erase S F) = true.
+Proof. exact erase_schema_ok. Qed.
+
+(** enabling every feature makes everything appear: nothing is deleted *)
+Theorem C13_enabling_shows_everything : forall S G,
+  schema_ok S = true -> subset (all_features S) G = true -> erase S G = S.
+Proof. exact erase_all. Qed.
+
+(** ** the pinned tree violated the property at each of the repaired places (witnesses replayed
+    against the real code by the harness's witness cases) *)
+
+(** defect 17: __type(name:), interfaces and possibleTypes ignored the request's features *)
+Theorem C13_introspection_refuted_before_fix :
+  schema_ok W = true /\ subset [] [fa] = true /\
+  visible W [] (nm "A") = true /\ visible W [] (nm "I") = true /\
+  ask pinned_intro W [] (QIntroType (nm "G")) <> ask pinned_intro (erase W []) [fa] (QIntroType (nm "G")) /\
+  ask pinned_intro W [] (QIntroInterfaces (nm "A")) <> ask pinned_intro (erase W []) [fa] (QIntroInterfaces (nm "A")) /\
+  ask pinned_intro W [] (QIntroPossible (nm "I")) <> ask pinned_intro (erase W []) [fa] (QIntroPossible (nm "I")).
+Proof. exact intro_refuted_before_fix. Qed.
+
+(** defect 30a: { i { ... on J { y } } } validates although the only common implementation is gated *)
+Theorem C13_spread_refuted_before_fix :
+  schema_ok W = true /\
+  snd (run pinned_spread W [] [] (chain_validate spread_chain)) = Done [] /\
+  snd (run pinned_spread (erase W []) [fa] [] (chain_validate spread_chain)) = Done [1%nat].
+Proof. exact spread_refuted_before_fix. Qed.
+
+(** defect 30b: { i { x } } resolves the object through the gated implementation and invokes G.x *)
+Theorem C13_resolution_refuted_before_fix :
+  schema_ok W = true /\
+  (exists fd, In (nm "G", nm "x", fd) (resolved_fields (fst (run pinned_resolve W [] [] (chain_prog resolve_chain))))) /\
+  has_field (erase W []) (nm "G") (nm "x") = false /\
+  snd (run pinned_resolve W [] [] (chain_prog resolve_chain)) <>
+  snd (run pinned_resolve (erase W []) [fa] [] (chain_prog resolve_chain)).
+Proof. exact resolve_refuted_before_fix. Qed.
+
+(** new: a gated root operation type was accepted and served *)
+Theorem C13_root_type_refuted_before_fix :
+  schema_ok_gen pinned_roots W_root = true /\
+  ask pinned_roots W_root [] (QRoot RMutation) <> ask pinned_roots (erase W_root []) [fa] (QRoot RMutation) /\
+  schema_ok W_root = false.
+Proof. exact roots_refuted_before_fix. Qed.
+
+(** new: a directive argument of a gated type was accepted and handed to every request *)
+Theorem C13_directive_argument_refuted_before_fix :
+  schema_ok_gen pinned_dirs W_dir = true /\
+  In (nm "E") (handles_of QIntroDirectives (ask pinned_dirs W_dir [] QIntroDirectives)) /\
+  visible W_dir [] (nm "E") = false /\
+  schema_ok W_dir = false.
+Proof. exact dirs_refuted_before_fix. Qed.
+
+(** a limit of the code that exists, not a defect: the executor's own by-name lookup is
+    feature-blind; it is only ever applied to type conditions the validator resolved (that is the
+    discipline [run] imposes on QNamedE, and why the premise of [C13_view_erase_eq] is needed) *)
+Theorem C13_executor_lookup_needs_validated_name :
+  schema_ok W = true /\
+  ask fixed W [] (QNamedE (nm "G")) <> ask fixed (erase W []) [fa] (QNamedE (nm "G")) /\
+  ask fixed W [] (QNamedV (nm "G")) = ask fixed (erase W []) [fa] (QNamedV (nm "G")).
+Proof. exact exec_lookup_blind. Qed.
+
+Print Assumptions C13_view_erase_eq.
+Print Assumptions C13_view_closed.
+Print Assumptions C13_view_validator_erase_eq.
+Print Assumptions C13_view_executor_erase_eq.
+Print Assumptions C13_feature_introspect_eq.
+Print Assumptions C13_noninterference.
+Print Assumptions C13_noninterference_all_features.
+Print Assumptions C13_gated_never_called.
+Print Assumptions C13_feature_validate_eq_partial.
+Print Assumptions C13_feature_exec_eq_partial.
+Print Assumptions C13_erase_schema_ok.
+Print Assumptions C13_enabling_shows_everything.
+Print Assumptions C13_introspection_refuted_before_fix.
+Print Assumptions C13_spread_refuted_before_fix.
+Print Assumptions C13_resolution_refuted_before_fix.
+Print Assumptions C13_root_type_refuted_before_fix.
+Print Assumptions C13_directive_argument_refuted_before_fix.
+Print Assumptions C13_executor_lookup_needs_validated_name.
